@@ -34,7 +34,8 @@ def RefKind.tag : RefKind → Nat
 
 /-- A janet value.  `struct flat proto`: `flat` is the slot array of the struct, flattened as
     key₀, value₀, key₁, value₁, … (an empty slot is nil, nil), exactly the order in which value.c traverses it;
-    `proto = .nil` stands for a NULL prototype pointer.  `ref k bits`: `bits` is the 64-bit NaN-boxed word
+    `proto = []` stands for a NULL prototype pointer, `proto = [p]` for the prototype `p` (an optional value written
+    as a list so that one list traversal serves tuples, slots and prototypes; only the head is ever a prototype).  `ref k bits`: `bits` is the 64-bit NaN-boxed word
     (type tag and address), which is what `janet_hash` feeds to murmur64 and what pointer comparison orders by
     (same kind ⇒ same tag bits). -/
 inductive JVal (N : Type) where
@@ -45,7 +46,7 @@ inductive JVal (N : Type) where
   | sym (bs : List UInt8)
   | kw (bs : List UInt8)
   | tuple (bracket : Bool) (xs : List (JVal N))
-  | struct (flat : List (JVal N)) (proto : JVal N)
+  | struct (flat : List (JVal N)) (proto : List (JVal N))
   | ref (kind : RefKind) (bits : UInt64)
   deriving Repr
 
@@ -136,8 +137,8 @@ def hash : JVal N → UInt32
   | .struct flat proto =>
       -- janet_struct_end: kv hash, plus protoMul * hash of the prototype when there is one
       hashFold kvSeed.toUInt32 flat + (match proto with
-        | .nil => 0
-        | p => protoMul.toUInt32 * hash p)
+        | [] => 0
+        | p :: _ => protoMul.toUInt32 * hash p)
   | .ref _ bits => ptrHash bits
 /-- the loop of `janet_array_calchash`; `janet_kv_calchash` is the same loop over key, value, key, value, … -/
 def hashFold : UInt32 → List (JVal N) → UInt32
@@ -172,13 +173,9 @@ def equals : JVal N → JVal N → Bool
   | .struct f1 p1, .struct f2 p2 =>
       if hash (.struct f1 p1) != hash (.struct f2 p2) then false
       else if structLength f1 != structLength f2 then false
-      else if !p1.isNil && p2.isNil then false
-      else if p1.isNil && !p2.isNil then false
-      else equalsList f1 f2 &&
-        (match p1, p2 with
-         | .nil, _ => true
-         | _, .nil => true
-         | q1, q2 => equals q1 q2)
+      else if !p1.isEmpty && p2.isEmpty then false
+      else if p1.isEmpty && !p2.isEmpty then false
+      else equalsList f1 f2 && equalsList p1 p2   -- slots, then (traversal_next) the prototypes, themselves structs
   | _, _ => false
 /-- element-wise traversal (traversal_next with index2 = 0).  The C walks `capacity(self)` slots of both structs,
     relying on equal length ⇒ equal capacity (struct.c janet_struct_begin); the model requires equal lengths. -/
@@ -216,11 +213,7 @@ def jcompare : JVal N → JVal N → Ordering
         | .eq => match compareList f1 f2 with
           | .lt => .lt
           | .gt => .gt
-          | .eq => match p1, p2 with
-            | .nil, .nil => .eq
-            | .nil, _ => .lt
-            | _, .nil => .gt
-            | q1, q2 => jcompare q1 q2
+          | .eq => compareList p1 p2   -- no proto < proto; both: compare the prototypes
   | x, y => if x.typeTag < y.typeTag then .lt else if x.typeTag > y.typeTag then .gt else .eq
 /-- traversal_next with index2 = 1: element-wise, then by length -/
 def compareList : List (JVal N) → List (JVal N) → Ordering
